@@ -262,8 +262,14 @@ func (sh *Shard) build() error {
 	}
 	sh.Container = c
 	sh.Factory = f
+	// the embedding code goes on using its own map: an address it adds AFTER construction was never
+	// configured as a DNS address
+	dns[string(LateDNS)] = struct{}{}
 	return nil
 }
+
+// LateDNS is put into the caller's DNS map after the factory has been constructed.
+var LateDNS = append(bytes.Repeat([]byte{0x4c}, 31), 0)
 
 // ConfirmEpoch delivers an epoch notification to every subscriber of every shard.
 func (w *World) ConfirmEpoch(e uint32) {
